@@ -301,8 +301,62 @@ func runC08(r *ev.Run) {
 				}
 			}
 		}
+		// one long-lived search object per history: executed with a small k, kept while the store changes, then
+		// re-configured (k beyond the corpus, sometimes another query vector) and executed again; the answer must be the
+		// one a fresh search object with the same final configuration gives (whatever an Execute leaves behind in the
+		// builder - a bound, a clamped k, a cached part list - shows up here)
+		var heldS comet.HybridSearch
+		var heldVec []float32
+		heldProbe := func() {
+			if p.VecKind == "" {
+				return
+			}
+			if heldS != nil && rng.IntN(2) == 0 {
+				if rng.IntN(3) == 0 {
+					heldVec = make([]float32, p.Dim)
+					for i := range heldVec {
+						heldVec[i] = float32(rng.NormFloat64())
+					}
+					heldVec[0] += 0.25
+					heldS = heldS.WithVector(cloneF32(heldVec))
+				}
+				heldS = heldS.WithK(bigK)
+				a1, e1 := heldS.Execute()
+				a2, e2 := s.NewSearch().WithVector(cloneF32(heldVec)).WithK(bigK).Execute()
+				if (e1 != nil) != (e2 != nil) {
+					rep("store.held-search-object-differs", fmt.Sprintf("a search object executed earlier, re-configured and executed again: err=%v; a fresh object with the same configuration: err=%v", e1, e2))
+				} else if e1 == nil {
+					g1, g2 := map[uint32]bool{}, map[uint32]bool{}
+					for _, x := range a1 {
+						g1[x.ID] = true
+					}
+					for _, x := range a2 {
+						g2[x.ID] = true
+					}
+					if !sameSet(g1, g2) {
+						rep("store.held-search-object-differs", "a search object executed earlier, re-configured (k beyond the corpus) and executed again differs from a fresh object with the same configuration: "+setDiff(g1, g2))
+					}
+				}
+				r.Count("probes:held-search-object", 1)
+				heldS = nil
+				return
+			}
+			if heldS == nil {
+				heldVec = make([]float32, p.Dim)
+				for i := range heldVec {
+					heldVec[i] = float32(rng.NormFloat64())
+				}
+				heldVec[0] += 0.25
+				heldS = s.NewSearch().WithVector(cloneF32(heldVec)).WithK(1 + rng.IntN(3))
+				if _, err := heldS.Execute(); err != nil {
+					rep("store.search-error", "held search object: "+err.Error())
+					heldS = nil
+				}
+			}
+		}
 		nOps := 15 + rng.IntN(45)
 		for op := 0; op < nOps && !dead; op++ {
+			heldProbe()
 			c := rng.IntN(20)
 			switch {
 			case c < 9:
